@@ -243,10 +243,15 @@ def moment_config(rnd, tier, force=None):
         var = 2 * b ** 2
         mean, second = mu, var + mu ** 2
         fourth = 24 * b ** 4 + 6 * var * mu ** 2 + mu ** 4
-    elif tk in ("mixture", "mixture_scalar"):
+    elif tk in ("mixture", "mixture_scalar", "mixture_narrow"):
         m1, m2 = mu, mu + numpy.array([[2.0], [1.0]])
         w = 0.35
-        if tk == "mixture":
+        if tk == "mixture_narrow":
+            # components so narrow that the normalised density exceeds one: the misfit is negative around the modes
+            m2 = mu + numpy.array([[0.25], [-0.125]])
+            v1, v2 = numpy.array([[0.01], [0.02]]), numpy.array([[0.015], [0.01]])
+            target = D.Mixture([D.Normal(m1, v1), D.Normal(m2, v2)], [w, 1 - w])
+        elif tk == "mixture":
             v1, v2 = numpy.array([[0.5], [0.7]]), numpy.array([[1.0], [0.4]])
             target = D.Mixture([D.Normal(m1, v1), D.Normal(m2, v2)], [w, 1 - w])
         else:
@@ -279,7 +284,7 @@ def moment_config(rnd, tier, force=None):
         logpdf = lambda x: -0.5 * float(((x - mu).T @ Pm @ (x - mu)).item())
     elif tk == "laplace":
         logpdf = lambda x: -float(numpy.sum(numpy.abs(x - mu) / b))
-    elif tk in ("mixture", "mixture_scalar"):
+    elif tk in ("mixture", "mixture_scalar", "mixture_narrow"):
         logpdf = lambda x: float(numpy.log(w * numpy.exp(gl(x, m1, v1)) + (1 - w) * numpy.exp(gl(x, m2, v2))))
     else:
         logpdf = lambda x: gl(x, mu, numpy.ones((d, 1)))
@@ -349,7 +354,16 @@ def moment_test(rnd, tier, k, force=None):
     z2 = numpy.abs((ends ** 2).mean(axis=1, keepdims=True) - second) / numpy.sqrt((fourth - second ** 2) / n)
     cfg["acceptance"] = smp.accepted_proposals / (n * transitions)
     cfg["z_first"], cfg["z_second"] = float(z1.max()), float(z2.max())
-    bad = z1.max() > 7 or z2.max() > 7 or cfg["density_mismatch"] > 1e-9
+    # a third statistic, the misfit itself: on the target its law does not change either, and the paired difference end - start
+    # is sensitive to mass moving between the modes and the tails
+    with numpy.errstate(all="ignore"):
+        xs = numpy.array([float(target.misfit(starts[:, j:j + 1].copy())) for j in range(n)])
+        xe = numpy.array([float(target.misfit(ends[:, j:j + 1].copy())) for j in range(n)])
+    numpy.seterr(all="warn")
+    dx = xe - xs
+    sd = float(numpy.std(dx, ddof=1))
+    cfg["z_misfit"] = float(abs(dx.mean()) / (sd / math.sqrt(n))) if sd > 0 and numpy.isfinite(dx).all() else (0.0 if numpy.isfinite(dx).all() else float("inf"))
+    bad = z1.max() > 7 or z2.max() > 7 or cfg["z_misfit"] > 7 or cfg["density_mismatch"] > 1e-9
     return cfg, bad
 
 
@@ -388,10 +402,12 @@ def run(tier, seed):
         if key in searched or len(searched) >= 4:
             continue
         searched.add(key)
-        for tk in ("truncated", "gaussian", "gaussian-long-steps"):
+        for tk in ("truncated", "gaussian", "gaussian-long-steps", "mixture_narrow-short-steps"):
             force = {"target": tk.split("-")[0], "kind": m["kind"]}
             if m["kind"] == "hmc":
                 force.update(mass=key[1], integrator=key[2], stepsize=0.5, steps=5, randomize=False, transitions=12)
+                if tk.endswith("short-steps"):
+                    force.update(stepsize=0.05, steps=3, transitions=10)
                 if tk.endswith("long-steps"):
                     # steps as long as the integrator is meant for: what a fixed-step bias needs in order to show
                     force.update(stepsize=LONG_STEP.get(key[2], 0.6), steps=2, transitions=30)
@@ -400,7 +416,7 @@ def run(tier, seed):
             if badm:
                 found[key] = cfgm
                 violations.append(Violation(f"moments-{cfgm['target']}-{cfgm['kind']}", f"chains started from exact draws of the {cfgm['target']} target leave it after a few transitions: first / second moments "
-                                            f"are {cfgm['z_first']:.1f} / {cfgm['z_second']:.1f} standard errors off ({cfgm})", {"moment_cfg": cfgm}))
+                                            f"are {cfgm['z_first']:.1f} / {cfgm['z_second']:.1f} standard errors off, the mean misfit {cfgm.get('z_misfit', 0.0):.1f} ({cfgm})", {"moment_cfg": cfgm}))
                 break
     for j in bad:
         which = [ck for ck, fl in res.items() if j in fl]
@@ -413,9 +429,13 @@ def run(tier, seed):
         violations.append(Violation("coq-error", "correspondence shard failed: " + log[-300:], {"log": log, "no_failing_input_found": True}))
     kinds = ["gaussian", "gaussian_full", "laplace", "mixture", "mixture_scalar", "truncated"]
     nm = 8 if tier == "quick" else 64
-    for k in range(nm + 3):
+    for k in range(nm + 4):
         force = {"target": kinds[k % 8] if k % 8 < len(kinds) else "truncated"}                  # every target kind in every run
-        if k >= nm:
+        if k == nm + 3:
+            # a target whose misfit is negative where most of its mass is, short steps to match its width
+            force = {"target": "mixture_narrow", "kind": "hmc", "mass": "unit", "integrator": rnd.choice(["lf", "3s", "4s"]), "stepsize": 0.05, "steps": 3,
+                     "randomize": False, "transitions": 10}
+        elif k >= nm:
             # every integrator once with a fixed step as long as it is meant for, and enough transitions for a bias to build up
             integ = ["lf", "3s", "4s"][k - nm]
             force = {"target": "gaussian", "kind": "hmc", "mass": "unit", "integrator": integ, "stepsize": LONG_STEP[integ], "steps": 2, "randomize": False, "transitions": 30}
@@ -430,7 +450,7 @@ def run(tier, seed):
         dist["moment_chains"] += 1500 if tier == "quick" else 6000
         if badm:
             violations.append(Violation(f"moments-{cfg['target']}-{cfg['kind']}", f"chains started from exact draws of the {cfg['target']} target leave it after a few transitions: first / second moments "
-                                        f"are {cfg['z_first']:.1f} / {cfg['z_second']:.1f} standard errors off; exp(-misfit) deviates from the density of the draws by "
+                                        f"are {cfg['z_first']:.1f} / {cfg['z_second']:.1f} standard errors off, the mean misfit {cfg.get('z_misfit', 0.0):.1f}; exp(-misfit) deviates from the density of the draws by "
                                         f"{cfg['density_mismatch']:.2g} (relative, in the log) ({cfg})", {"moment_cfg": cfg}))
         if k < 2:
             samples.append({"moment_test": cfg})
@@ -438,7 +458,7 @@ def run(tier, seed):
         "evaluations": dist["composition_runs"] + dist["moment_tests"], "distinct_nontrivial": len(seen),
         "rule": "composition tie: complete runs of the real samplers with real Unit/Diagonal/Full masses and Normal (diag / full) / Laplace targets behind logging wrappers, "
                 "scripted random numbers, all integrators; moment tests: 1500 (thorough 6000) independent chains from exact draws of Gaussian, correlated Gaussian, Laplace, "
-                "mixture (per-dimension and scalar variances) and box-truncated targets, 3 transitions each (30 for the three long-step configurations, one per integrator) through _propose/_evaluate_acceptance, first and second moments vs closed forms at 7 standard errors",
+                "mixture (per-dimension and scalar variances) and box-truncated targets, 3 transitions each (30 for the three long-step configurations, one per integrator) through _propose/_evaluate_acceptance, first and second moments vs closed forms and the paired change of the mean misfit, at 7 standard errors",
         "samples": samples, "violations": violations,
         "traces_validated_against_impl": len(coq) - len(bad),
         "coverage": {"distribution": dist, "correspondence_failures": len(bad)},
